@@ -64,12 +64,12 @@ TEXTS = {
                     "Tables <= 12 columns x 14 samples, 2-D unrotated grids; names limited to a regex-safe alphabet.")),
     "C09": dict(
         engine="libFuzzer + deterministic fault enumeration",
-        technique="fuzzing: exhaustive enumeration of write-interruption points (every prefix) and single-token corruptions of valid files, plus coverage-guided libFuzzer campaigns (thorough), ASan/UBSan + in-target semantic oracle (loaded object usable, savable, reloadable)",
+        technique="fuzzing: exhaustive enumeration of write-interruption points (every prefix) and single-token corruptions of valid files (boundary numbers, junk, keyword/rank variants, line edits), plus coverage-guided libFuzzer campaigns (thorough), ASan/UBSan + in-target semantic oracle (loaded object usable, savable, reloadable)",
         design_ref="DESIGN.md §5 C09, §10.4",
         level_text=("Fault enumeration: for each of 32 readers (26 neutral-file classes, CSV, Zycor, IFPEN, BMP, F2G, LAS) every truncation point and a finite "
                     "set of single-fault corruptions of valid files produced by the tree under test are executed under ASan/UBSan with memory/time limits; "
                     "an accepted input must yield an object that can be used, saved and loaded again. The thorough tier adds coverage-guided mutation. "
-                    "76 genuine defects of the unchanged tree are recorded as known findings by crash signature; a new signature is a violation."),
+                    "__NC09__ genuine defects of the unchanged tree are recorded as known findings by crash signature; a new signature is a violation."),
         level_note=("Trusted: sanitizer reports, libFuzzer. Inputs <= 4 KB; limits rss 2 GB / malloc 1 GB / 10 s per input. A defect whose signature (sanitizer kind + "
                     "first frame inside /repo, or oracle message) equals a recorded one in the same reader is not distinguished from it.")),
     "C18": dict(
@@ -92,7 +92,7 @@ TEXTS = {
                     "matrices up to 96x96; an invalid model whose negative eigenvalue only appears on larger or differently spaced point sets can be missed.")),
     "C19": dict(
         engine="rapidcheck + guarded fault-injection hooks",
-        technique="property-based testing with fault injection: generated calculator calls and prior Db contents; exhaustive enumeration of injection points (every stage, every k) per case through GSTLEARN_VERIF hooks; oracle = bit-exact before/after snapshots of both Dbs",
+        technique="property-based testing with fault injection: generated calculator calls and prior Db contents and histories (variables created and deleted earlier); exhaustive enumeration of injection points (every stage, every k) per case through GSTLEARN_VERIF hooks; oracle = bit-exact before/after snapshots of both Dbs",
         design_ref="DESIGN.md §4, §5 C19",
         level_text=("Fault enumeration: for each generated call every internal stage boundary, every variable creation and every kriging target is made to fail in "
                     "turn (plus 26 kinds of natural invalid arguments), and the complete state of both data bases is compared before/after; successes must add "
@@ -168,7 +168,7 @@ TEXTS = {
         engine="rapidcheck",
         technique="property-based statistical testing (rapidcheck-generated simulator/model/seed cases): ensemble moments over 1000-4000 realisations against the model with sampling-error-calibrated thresholds (6 sigma + stated discretisation allowance); moment / KS / support tests of the random generators",
         design_ref="DESIGN.md §5 C14",
-        level_text=("Statistical exploration: few but expensive cases (quick ~30 ensembles + 400 law/Cholesky cases; thorough ~430 ensembles + 7000): each ensemble's mean, "
+        level_text=("Statistical exploration: few but expensive cases (quick ~25 ensembles incl. dedicated 3-D-grid turning bands + 400 law/Cholesky cases; thorough ~430 ensembles + 7000): each ensemble's mean, "
                     "variance and (cross-)covariances at probe nodes/pairs are compared with the model within 6 Monte-Carlo standard errors plus a stated allowance. "
                     "Detects gross law errors (factors, axes, sills, signs), not subtle distributional defects."),
         level_note=("Trusted: the Gaussian fourth-moment formula for sigma_MC, boost::math CDFs, rapidcheck; thresholds derived (not tuned) and validated over seeds on "
@@ -181,3 +181,11 @@ TEXTS = {
                     "satisfy the validity predicate. Many outputs are admissible, so a predicate (not one expected model) is checked."),
         level_note=("Trusted: the harness's Jacobi eigenvalues and its reading of which parameters each option infers (from the code), rapidcheck. <= 12 lags, <= 3 structures, maxiter <= 100.")),
 }
+
+
+# counts that follow known_findings.json
+import json as _json, os as _os
+_k = _json.load(open(_os.path.join(_os.path.dirname(_os.path.abspath(__file__)), "known_findings.json")))
+_n = len([f for f in _k["findings"] if f["property"] == "C09"])
+for _f in ("level_text",):
+    TEXTS["C09"][_f] = TEXTS["C09"][_f].replace("__NC09__", str(_n))
